@@ -1,8 +1,80 @@
-(** C31 — property theorems only (first stage). *)
+(** C31 — property theorems only.  [HM] is the location-heap reading of traffic.go (what Go
+    does: fields hold pointers), [VM] the immutable-value reading of the same program text;
+    [false] selects the repaired [issue] (proposed/C31/fix-bigint-alias.patch), [true] the
+    in-place Add of the pinned tree.  Histories are arbitrary lists of operations (registration,
+    credited traffic, pay attempts with failing signer/delivery, 24 h refresh, cash-out receipts,
+    restarts) with arbitrary chain answers, started from the empty store. *)
 From Coq Require Import List NArith ZArith Bool.
 Import ListNotations.
-Require Import Aurora.C31.Model.
+Require Import Aurora.C31.Model Aurora.C31.Heap Aurora.C31.Refine Aurora.C31.Value Aurora.C31.Payout Aurora.C31.Main.
 Local Open Scope N_scope.
+
+(** no operation of a running process ever changes the value of an allocated big.Int: all
+    updates are fresh allocations and pointer copies (this is what makes the sharing harmless) *)
+Theorem C31_no_write_through : forall (h : list op) (o : op),
+  is_restart o = false ->
+  let s := hreach h in let s' := snd (step HM false s o) in
+  next (hp s) <= next (hp s') /\ forall l, l < next (hp s) -> nread (hp s') l = nread (hp s) l.
+Proof. exact no_write_through. Qed.
+Print Assumptions C31_no_write_through.
+
+(** every pointer stored in a reachable record is allocated (the default value of [nread] is never used) *)
+Theorem C31_heap_wf : forall (h : list op) a t,
+  get a (recs (hreach h)) = Some t ->
+  let n := next (hp (hreach h)) in
+  f_pb t < n /\ f_rchain t < n /\ f_tchain t < n /\ f_rcheque t < n /\ f_tcheque t < n /\ f_rtraffic t < n /\ f_ttraffic t < n
+  /\ bal (hreach h) < n.
+Proof. exact heap_wf. Qed.
+Print Assumptions C31_heap_wf.
+
+(** issuing a cheque (any outcome: below threshold, insufficient funds, signer or delivery failure,
+    success), crediting traffic and registering never change what any peer has cashed *)
+Theorem C31_chain_record_stable : forall (h : list op) (o : op) a t,
+  chain_free o = true ->
+  let s := hreach h in let s' := snd (step HM false s o) in
+  get a (recs s) = Some t ->
+  exists t', get a (recs s') = Some t' /\ nread (hp s') (f_rchain t') = nread (hp s) (f_rchain t).
+Proof. exact chain_record_stable. Qed.
+Print Assumptions C31_chain_record_stable.
+
+(** a pay attempt never changes the reported available balance *)
+Theorem C31_pay_keeps_available : forall (h : list op) p th sg dl,
+  let s := hreach h in
+  available_balance HM (snd (step HM false s (OPay p th sg dl))) = available_balance HM s.
+Proof. exact pay_keeps_available. Qed.
+Print Assumptions C31_pay_keeps_available.
+
+(** over every history the heap run produces the outputs of the immutable-value reading, its
+    reported available balance is that reading's  chain balance + cashed amounts - traffic owed,
+    and every field holds the value the value reading holds *)
+Theorem C31_available_formula : forall (h : list op),
+  fst (run HM false (init_state HM) h) = fst (run VM false (init_state VM) h) /\
+  available_balance HM (hreach h)
+  = (bal (vreach h) + (vsum f_rchain (recs (vreach h)) - vsum f_rtraffic (recs (vreach h))))%Z /\
+  forall a t, get a (recs (hreach h)) = Some t ->
+    exists tv, get a (recs (vreach h)) = Some tv /\ rec_vals HM (hp (hreach h)) t = rec_vals VM tt tv.
+Proof. exact refines_value_reading. Qed.
+Print Assumptions C31_available_formula.
+
+(** a cheque goes to the chain address registered for the paid overlay and its cumulative payout
+    is exactly the record of the traffic owed to it (so it never exceeds it) *)
+Theorem C31_payout_is_owed : forall (h : list op) p th sg dl a x d,
+  let s := hreach h in let r := step HM false s (OPay p th sg dl) in
+  o_emit (fst r) = Some (a, x, d) ->
+  get p (m_pb s) = Some a /\ exists t', get a (recs (snd r)) = Some t' /\ x = nread (hp (snd r)) (f_rtraffic t').
+Proof. exact payout_is_owed. Qed.
+Print Assumptions C31_payout_is_owed.
+
+(** PARTIAL (process lifetime): from start-up (Init with any chain answers) through any history
+    WITHOUT a further restart, with positive payment thresholds: every cheque handed to a peer is
+    strictly above the last cheque DELIVERED to that peer (delivered payouts strictly increase; a
+    failed delivery may be retried with the same payout).  Histories with a later restart are
+    excluded here (what a restart restores is C33's subject). *)
+Theorem C31_payout_increasing_partial : forall (cv0 : chainview) (h : list op),
+  no_restart h = true -> Forall threshold_pos h ->
+  emits_above (fun _ => None) (fst (run HM false (init_state HM) (ORestart cv0 :: h))).
+Proof. exact payout_increasing. Qed.
+Print Assumptions C31_payout_increasing_partial.
 
 Definition witness : list op :=
   [ORestart {| cv_lists := Some [1]; cv_trans := []; cv_bal := Some 1000%Z; cv_paid := Some 0%Z |};
@@ -10,10 +82,25 @@ Definition witness : list op :=
 
 (** F-bigint-alias: [issue] as it stood in the pinned tree.  After Init the record's
     retrieveChainTraffic, retrieveChequeTraffic (and, before the first credit, retrieveTraffic)
-    are ONE big.Int; the in-place Add of [issue] raises "what the peer cashed" by the amount of
-    the cheque and the available balance returns to its value before the traffic was credited. *)
+    are ONE big.Int; the in-place Add of [issue] raises "what the peer cashed" by the amount of the
+    cheque and the available balance returns to its value before the traffic was credited, while
+    the value reading says 0 cashed and 900 available.  Replayed on the Go code (notes/C31.md). *)
 Theorem C31_inplace_refuted :
-  let s := snd (run heap_mem true (init_state heap_mem) witness) in
-  (exists t, get 1 (recs s) = Some t /\ nread (hp s) (f_rchain t) = 100%Z) /\ available_balance heap_mem s = 1000%Z.
-Proof. vm_compute. split; [eexists; split; reflexivity | reflexivity]. Qed.
+  let s := snd (run HM true (init_state HM) witness) in
+  (exists t, get 1 (recs s) = Some t /\ nread (hp s) (f_rchain t) = 100%Z) /\ available_balance HM s = 1000%Z /\
+  available_balance VM (vreach witness) = 900%Z.
+Proof. vm_compute. split; [eexists; split; reflexivity | split; reflexivity]. Qed.
 Print Assumptions C31_inplace_refuted.
+
+(** non-vacuity: on the witness history the repaired model shares one location between three
+    fields, emits one cheque of 100, keeps cashed = 0 and reports 900; the hypotheses of the
+    partial theorem hold for it *)
+Example C31_witness_repaired :
+  let '(outs, s) := run HM false (init_state HM) witness in
+  map o_emit outs = [None; None; None; Some (1, 100%Z, true)] /\
+  (exists t, get 1 (recs s) = Some t /\ f_rchain t = f_tchain t + 1 /\ nread (hp s) (f_rchain t) = 0%Z /\ nread (hp s) (f_rcheque t) = 100%Z) /\
+  available_balance HM s = 900%Z /\ no_restart (tl witness) = true /\ Forall threshold_pos (tl witness).
+Proof.
+  vm_compute. split; [reflexivity|]. split; [eexists; repeat split; reflexivity|]. split; [reflexivity|]. split; [reflexivity|].
+  repeat constructor.
+Qed.
